@@ -145,13 +145,21 @@ MacroNames(kind) ==
   LET base == (IF kind.try THEN "try_" ELSE "") \o "join" \o (IF kind.async THEN "_async" ELSE "") \o (IF kind.spawn THEN "_spawn" ELSE "")
       alias == (IF kind.try THEN "try_" ELSE "") \o (IF kind.async THEN "async_" ELSE "") \o "spawn"
   IN  IF kind.spawn THEN {base, alias} ELSE {base}
+AliasOf(kind) == (IF kind.try THEN "try_" ELSE "") \o (IF kind.async THEN "async_" ELSE "") \o "spawn"
 StepC07(b, k) == <<Item(IdOf(b, k, 1), "and_then", IF k = 1 THEN "block" ELSE "closure", <<>>), Item(IdOf(b, k, 2), "or_else", "closure", <<>>)>>
+\* `->` opens the later steps: it receives the whole carrier, so a macro name that hands on something else is seen
+StepC07t(b, k) == <<Item(IdOf(b, k, 1), "then", "closure", <<>>), Item(IdOf(b, k, 2), "and_then", "closure", <<>>)>>
+StepC07o(b, k) == <<Item(IdOf(b, k, 1), "and_then", "closure", <<>>), Item(IdOf(b, k, 2), "or_else", "closure", <<>>), Item(IdOf(b, k, 3), "map", "closure", <<>>)>>
 FamC07(dummy) ==
   UNION {UNION {{Run([P EXCEPT !.macro = m], pl, {}) : m \in MacroNames(P.kind)} :
                 pl \in FailPlans(ItemIds(P, {"and_then"}), 1) \cup {<<F(IdOf(0, 0, 1)), Rcv(IdOf(0, 0, 2))>>}} :
          P \in {Build(kd, "res", pr, StepC07, NoName, ExprInit, IF h = "dflt" THEN DefaultHandler(kd) ELSE "none") : kd \in Kinds8,
-                  pr \in IF Tier = "quick" THEN {<<1>>, <<2, 1>>, <<1, 2, 2>>, <<1, 3, 2>>} ELSE Profiles(3, 2) \cup {<<1, 3, 2>>, <<1, 3, 3>>, <<3, 1, 3>>},
-                  h \in {"none", "dflt"}}}
+                  pr \in IF Tier = "quick" THEN {<<1>>, <<2>>, <<3>>, <<2, 1>>, <<1, 2, 2>>, <<1, 3, 2>>}
+                                          ELSE Profiles(3, 2) \cup {<<3>>, <<1, 3, 2>>, <<1, 3, 3>>, <<3, 1, 3>>},
+                  h \in {"none", "dflt"}}
+               \cup {Build(kd, "res", pr, StepC07t, NoName, ExprInit, "none") : kd \in Kinds8, pr \in {<<2>>, <<3>>, <<2, 2>>}}
+               \cup {Build(Kind(FALSE, t, sp), "opt", pr, StepC07o, NoName, ExprInit, "none") : t \in BOOLEAN, sp \in BOOLEAN,
+                        pr \in {<<1>>, <<2>>, <<2, 1>>}}}
 
 \* ---- C08: thread identity.  The first item of every (branch, step) is gated, so all threads of a
 \* step must be alive at the same time; named and unnamed callers.
@@ -325,6 +333,8 @@ Runs(dummy) ==
             [] Family = "C06" -> FamC06(0)
             [] Family = "C06h" -> FamC06h(0)
             [] Family = "C07" -> FamC07(0)
+            [] Family = "C07x" -> {[r EXCEPT !.prog.macro = AliasOf(r.prog.kind)] :
+                                     r \in {q \in FamC04(0) \cup FamC10(0) \cup FamC13(0) \cup FamC16(0) : q.prog.kind.spawn}}
             [] Family = "C08" -> FamC08(0)
             [] Family = "C08n" -> FamC08n(0)
             [] Family = "C09" -> FamC09(0)
